@@ -81,7 +81,11 @@ def main() -> None:
         "checks": checks,
         "not_applicable": na,
         "notes": "fix: commits in /repo repair genuine defects found by these checks (known_findings.json lists them); "
-                 "exit 2 = machinery failure (never a VIOLATION).",
+                 "exit 2 = machinery failure (never a VIOLATION). Measured on 16 cores: the quick commands take 15-240 s each "
+                 "(about 32 min for all twenty); the thorough commands 20 s-16 min each, except C10 (215 000 re-entrant call "
+                 "graphs, 88 M states: 35-65 min) - about 2 h for all twenty. Known findings (status known in "
+                 "known_findings.json: F18b, F25, F34) are printed as KNOWN-FINDING lines by the checks of C04/C14/C17/C18 and "
+                 "C06 and do not change the exit code 0.",
     }
     with open(os.path.join(HERE, "MANIFEST.json"), "w") as fh:
         json.dump(man, fh, indent=1)
